@@ -261,7 +261,7 @@ def run(ctx):
     out["violations"] += pv
     cv, ncamb = camb_wcdm_scenario()
     out["violations"] += cv
-    nprog = 25 if quick else 400
+    nprog = 40 if quick else 400
     tot, kinds = ncamb, {}
     samples = []
     for _ in range(nprog):
